@@ -35,6 +35,7 @@ func runC04(c *Check) {
 	c16Metadata(c, "C04.O7")
 	c04NoMessageWrites(c, "C04.O7", r)
 	c04NoSharedWrites(c, "C04.O7", r)
+	gcSafety(c, "C04", r)
 }
 
 // the sent copies
@@ -287,6 +288,12 @@ func c04LookupCopy(c *Check, id string, r *GCRoles) {
 		}
 		for ret, vals := range ReturnValues(L, 0) {
 			for _, v := range vals {
+				if _, isC := v.(*ssa.Const); !isC {
+					if _, fresh := FreshCopyOf(v, isList); fresh {
+						c.Report(true, id, "LOOKUP-FULL-COPY", L, ret.Pos(), "return copy", "the returned list is a full-length copy of the topic's subscriber list")
+						continue
+					}
+				}
 				switch x := v.(type) {
 				case *ssa.Const:
 					// nil: only when the topic has no entry
